@@ -1,4 +1,5 @@
 import SctpVerif.Gen.Consts
+import SctpVerif.Gen.Funcs
 /-!
 L0 model of outgoing stream reset (RFC 6525 as pion/sctp implements it) between two ESTABLISHED associations:
 stream.go (`Close`, `WriteSCTP`/`packetize`, `ReadSCTP`, `onInboundStreamReset`, `resetOutgoingStreamSequenceNumbers`),
@@ -86,6 +87,34 @@ structure Obj where
   eofSeen : Bool := false          -- Read has returned EOF
   rx : List Chunk := []            -- every chunk handed to this object's reassembly queue
   deriving Repr, DecidableEq, Inhabited
+
+/-! ### performed-request bookkeeping, exactly as in the code (uint32, serial-number comparison, trimming)
+
+`Ep.perf` below is the abstraction the two-endpoint model uses (a request sequence number once performed stays
+performed); `PerfSet` is the real thing: `performedResetRSNs` + `newestPerformedReset` with the trimming of
+`rememberPerformedReset`. The driver keeps both and flags a run in which they disagree; `Props/C14` proves that
+every RSN within 1024 of the newest one is still in the exact set, which is what makes the abstraction sound. -/
+
+structure PerfSet where
+  set : List (BitVec 32) := []   -- performedResetRSNs (nil map = empty)
+  newest : BitVec 32 := 0        -- newestPerformedReset
+  deriving Repr, DecidableEq, Inhabited
+
+/-- Go: `const keep = 1024` -/
+def perfKeep : Nat := 1024
+
+/-- Go: rememberPerformedReset -/
+def PerfSet.remember (p : PerfSet) (rsn : BitVec 32) : PerfSet :=
+  let newest := if p.set.isEmpty || Gen.sna32LT p.newest rsn then rsn else p.newest
+  let set := if p.set.contains rsn then p.set else rsn :: p.set
+  if set.length > 2 * perfKeep then
+    { set := set.filter (fun old => !Gen.sna32LT old (newest - BitVec.ofNat 32 perfKeep)), newest := newest }
+  else { set := set, newest := newest }
+
+/-- Go: `_, done := a.performedResetRSNs[rsn]` -/
+def PerfSet.has (p : PerfSet) (rsn : BitVec 32) : Bool := p.set.contains rsn
+
+def PerfSet.run (p : PerfSet) (rs : List (BitVec 32)) : PerfSet := rs.foldl PerfSet.remember p
 
 /-- an outgoing reset request this side created (ghost part: which objects it closes) -/
 structure ReqRec where
